@@ -45,6 +45,10 @@ def stepLine (s : St) (ws : List String) : St × String :=
     match d.toNat? with
     | some d => ({ s with now := s.now + d }, "ok")
     | none => (s, "bad-op")
+  | ["reconn"] =>
+    -- the ZooKeeper connection was re-established and no monitor node changed: the data watches
+    -- deliver nothing (zkwatchers.ExistingDataWatch de-duplicates on the node's mzxid)
+    (s, "ok")
   | ["eval", o] =>
     let (s', r) := reevaluate s (parseOutcomes o)
     let calls := showCsv (r.calls.map showCall)
